@@ -441,9 +441,11 @@ func (d chainDesc) run(chainID int, upto int) *chainRun {
 		prevCs, prevHs := cs, hs
 		line := map[string]any{"ev": "step", "chain": chainID, "i": i, "panic": ""}
 		meta := &stepMeta{child: child, era: eraOf(d.Net, child), decisive: map[string]string{}}
-		factor := cs.NonceFactor()
-		if factor == 0 {
-			factor = 1
+		// the factor the specification demands of the child's nonce (Difficulty!Factor, over naturals: child < asic);
+		// the candidates are built from the scenario, never from what the code under test believes
+		factor := uint64(1)
+		if child >= d.Net.Asic && d.Net.Factor > 1 {
+			factor = d.Net.Factor
 		}
 		target := idBig(cs.PoWTarget())
 		hdr := b.Header()
